@@ -498,11 +498,34 @@ def one_case(ctx, k, kind):
             worst = max(worst, float((np.abs(tr) / (mags1[ci] * float(np.abs(x).max()) + 1e-300)).max()))
         ctx.check("trace-independent-of-complement", worst <= (1e-6 if any(r.family == "global" for r in comp_recs) else 1e-9),
                   mech=f"trace-depends-on-outside:{base}", worst=worst, **tag)
+        Fi = np.array([f for f in Fs if f2t[1, int(f)] != -1], dtype=Fs.dtype)
+        if Fi.size and len({len(dict.fromkeys(int(v) for v in mesh.facets[:, f])) for f in Fi}) == 1:
+            # seen from the second neighbour of the interior facets as well
+            x1 = rng.standard_normal(N)
+            x1[sorted(closure_facets(Fi))] = 0.0
+            comps1, _, DF1, _ = c03.eval_side(mesh, kind, rec.make, x1, Fi, 1, W, DFfun, fallback)
+            n1 = c03.outward_normal(mesh, kind, Fi, DF1, side=1)
+            _, mags11, _, _ = c03.eval_side(mesh, kind, rec.make, np.ones(N), Fi, 1, W, DFfun, fallback)
+            worst1 = 0.0
+            for ci, cr in enumerate(comp_recs):
+                tr = trace_of(cr, comps1[ci], n1)
+                worst1 = max(worst1, float((np.abs(tr) / (mags11[ci] * float(np.abs(x1).max()) + 1e-300)).max()))
+            ctx.check("trace-independent-of-complement", worst1 <= (1e-6 if any(r.family == "global" for r in comp_recs) else 1e-9),
+                      mech=f"trace-depends-on-outside:second-neighbour:{base}", worst=worst1, **tag)
+            ctx.reached("trace-from-second-neighbour")
         ctx.nontrivial(rec.name, "trace", "independence")
         if rec.nodal and rec.family == "h1":
             # every returned DOF changes the trace
             bad = []
-            for g_ in sorted(wantFs)[:10]:
+            # a few DOFs of every entity kind (the lowest numbers are vertex DOFs only)
+            bykind_ = {}
+            for g_ in sorted(wantFs):
+                bykind_.setdefault(dofinfo[g_][0], []).append(g_)
+            probe = []
+            for ek_, lst in bykind_.items():
+                probe += [lst[int(i)] for i in rng.permutation(len(lst))[:4]]
+                ctx.reached("trace-control-probed:" + ek_)
+            for g_ in probe:
                 y = np.zeros(N)
                 y[g_] = 1.0
                 cc, mm, _, _ = c03.eval_side(mesh, kind, rec.make, y, Fs, 0, W, DFfun, fallback)
